@@ -520,7 +520,7 @@ def edit_distance(a, b, budget: int = 1, _qfree: bool = False) -> Optional[int]:
     # operands of a comparison exchanged
     if a and b and a[0] == b[0] and a[0] in ("cmp", "in") and len(a) == len(b):
         if a[0] == "cmp" and a[1] == b[1] and a[2] == b[3] and a[3] == b[2]:
-            return 1
+            return 0 if a[1] in ("==", "!=") else 1
         if a[0] == "in" and a[1] == b[2] and a[2] == b[1]:
             return 1
     best: Optional[int] = None
@@ -628,6 +628,17 @@ def strip_assuming(t):
     return tuple(strip_assuming(x) for x in t)
 
 
+def canon_sym(t):
+    """Order the operands of symmetric comparisons (==, !=) canonically (substitution / inlining can disturb it)."""
+    if not isinstance(t, tuple):
+        return t
+    t = tuple(canon_sym(x) for x in t)
+    if t and t[0] == "cmp" and len(t) == 4 and t[1] in ("==", "!="):
+        a, b = sorted((t[2], t[3]), key=repr)
+        return ("cmp", t[1], a, b)
+    return t
+
+
 def check_skeleton(ctx: Ctx, rule: str, fi: FuncInfo, specs: Sequence[str], what: str, inline_cls: Optional[str] = None, required_calls: Sequence[str] = (), ignore_asserts: bool = False) -> bool:
     """Compare; record ok / violation; raise AnalysisError when undecidable.
     ``required_calls``: functions the property says must be consulted; if one is not even reachable
@@ -651,20 +662,21 @@ def check_skeleton(ctx: Ctx, rule: str, fi: FuncInfo, specs: Sequence[str], what
     if missing:
         ctx.violation(rule, fi, fi.node, f"{what}: the implementation never consults {', '.join(missing)}  (it computes {show(impl)[:160]})")
         return False
-    spec_terms = [spec_from_src(s) for s in specs]
+    spec_terms = [canon_sym(spec_from_src(s)) for s in specs]
     if ignore_asserts:
         spec_terms = [strip_assuming(s) for s in spec_terms]
+    impl = canon_sym(impl)
     if impl in spec_terms:
         ctx.ok(rule, fi.where, f"{what}: {show(impl)}", fi.node, fi)
         return True
     cands = [impl]
     if inline_cls is not None:
-        inl = inline_self_calls(impl, ctx.repo, inline_cls)
+        inl = canon_sym(inline_self_calls(impl, ctx.repo, inline_cls))
         if inl in spec_terms:
             ctx.ok(rule, fi.where, f"{what} (after inlining helpers): {show(inl)}", fi.node, fi)
             return True
         cands.append(inl)
-        spec_inl = [inline_self_calls(s, ctx.repo, inline_cls) for s in spec_terms]
+        spec_inl = [canon_sym(inline_self_calls(s, ctx.repo, inline_cls)) for s in spec_terms]
         if inl in spec_inl:
             ctx.ok(rule, fi.where, f"{what} (both sides inlined): {show(inl)}", fi.node, fi)
             return True
@@ -676,6 +688,7 @@ def check_skeleton(ctx: Ctx, rule: str, fi: FuncInfo, specs: Sequence[str], what
     except Exception:  # pylint: disable=broad-except
         looked = impl
     if looked != impl:
+        looked = canon_sym(looked)
         if looked in spec_terms:
             ctx.ok(rule, fi.where, f"{what} (private helpers looked through): {show(looked)[:300]}", fi.node, fi)
             return True
